@@ -48,7 +48,7 @@ for _k, _t in ((0, ("thorough",)), (1, ("quick", "thorough")), (4, ("thorough",)
                 desc="decode(encode(Put{key,hash,size})) == same; layout 1+4+k+32+8",
                 bounds="key length = %d (concrete), key bytes/hash/size symbolic" % _k,
                 functions=FN_SER, role="put_roundtrip"))
-for _n, _q in (("n0", False), ("n1_l2", True), ("n2_l03", False), ("n2_l31", False)):
+for _n, _q in (("n0", False), ("n1_l2", False), ("n2_l03", False), ("n2_l31", False)):
     H.append(KH("c16_remove_roundtrip_" + _n, tiers=(("quick", "thorough") if _q else ("thorough",)),
                 vars=["k0", "k1", "l0", "l1", "nkeys"], replay="replay_c16_remove_roundtrip",
                 min_covers=(1 if _n.startswith("n2") else 0),
